@@ -50,6 +50,8 @@ CONFIGURATION_INDEXES = [
 
 SECRETS_PATH = 'secrets.json'
 
+_MISSING = object()
+
 
 def breakdown_data(
         limit: float,
@@ -275,8 +277,8 @@ class RAMEmitter(Emitter):
             for t, data in self.saved_data.items():
                 paths_data = []
                 for path in query:
-                    datum = get_in(data, path)
-                    if datum:
+                    datum = get_in(data, path, _MISSING)
+                    if datum is not _MISSING:
                         path_data = (path, datum)
                         paths_data.append(path_data)
                 returned_data[t] = paths_to_dict(paths_data)
